@@ -76,6 +76,7 @@ type Node struct {
 	// AbsentSubject is set when the manifest names a subject that is not a
 	// node of the DAG (never stored anywhere).
 	AbsentSubject *ocispec.Descriptor
+	sha512        bool
 }
 
 // DAG is a generated Merkle DAG with ground-truth edges.
@@ -231,6 +232,7 @@ type Opts struct {
 	NestedIndexes             bool
 	Titles                    bool // some layer descriptors carry a title annotation (file-store names), one fixed name per blob
 	TitleClash                bool // with Titles: two different blobs share one title (a file store must refuse the second)
+	SHA512                    bool // some blobs are addressed by sha512 digests (long blob paths: PAX records in tar archives)
 	URLsOnLayers              bool // some ordinary (distributable) layer and manifest descriptors carry the optional urls property
 }
 
@@ -264,7 +266,11 @@ type builder struct {
 }
 
 func (b *builder) add(n *Node) int {
-	n.Desc = ocispec.Descriptor{MediaType: n.Desc.MediaType, Digest: digest.FromBytes(n.Bytes), Size: int64(len(n.Bytes))}
+	alg := digest.SHA256
+	if n.sha512 {
+		alg = digest.SHA512
+	}
+	n.Desc = ocispec.Descriptor{MediaType: n.Desc.MediaType, Digest: alg.FromBytes(n.Bytes), Size: int64(len(n.Bytes))}
 	k := Key(n.Desc)
 	if id, ok := b.g.byKey[k]; ok {
 		return id
@@ -354,7 +360,7 @@ func Generate(rng *rand.Rand, o Opts) *DAG {
 		default:
 			data = b.randBytes(o.BlobMax)
 		}
-		id := b.add(&Node{Kind: Blob, Desc: ocispec.Descriptor{MediaType: mt}, Bytes: data, Subject: -1})
+		id := b.add(&Node{Kind: Blob, Desc: ocispec.Descriptor{MediaType: mt}, Bytes: data, Subject: -1, sha512: o.SHA512 && i%3 == 2})
 		if o.DupMediaType && i == 0 {
 			other := layerTypes[(rng.IntN(len(layerTypes)-1)+1+indexOf(layerTypes, mt))%len(layerTypes)]
 			b.add(&Node{Kind: Blob, Desc: ocispec.Descriptor{MediaType: other}, Bytes: append([]byte{}, b.g.Nodes[id].Bytes...), Subject: -1})
